@@ -514,3 +514,12 @@ def run(ctx):
     run_c14g(ctx)
     run_c14h(ctx)
     run_c14i(ctx)
+    # every Gaussian coordinate reaches exactly one component: the consumer takes one element of the pair stream per component
+    # (restated from C13-c: a vector that is built once and cloned L times leaves coordinates unread and others in several components)
+    from .kernels import consumption_nest
+    ctx.rule("C14-j", "the Gaussian block is consumed one element per component, loop-major (component (l,i) is element l·D+i): no element feeds two "
+                      "components, none is left unread")
+    try:
+        consumption_nest(ctx, gauss_site[2], "C14-j")
+    except RoleLost as e:
+        ctx.note("C14-j: restated clause skipped — %s" % e)
